@@ -38,6 +38,13 @@ CHECKS = {
             '(operation, operand type, placement, symptom).',
             'Proxies are real SandboxResult objects produced by Sandbox.evaluate(); bare proxy needles in real containers '
             'and real_str % proxy are outside the domain (decided in C code of the real operand).', '3/C16'),
+    'C19': ('Complete operator x operand-type x sample table and Hypothesis expression trees / nested values, each '
+            'judged differentially against CPython (eval) with an independent type-conformance checker',
+            'The 23 operators x 25 ordered core type pairs x 16 (thorough 64) sample pairs are enumerated completely; '
+            'random expression trees and JSON-like values extend the table. Two-directional: every type-level TypeError '
+            'must be reported, and every silent inference must describe the run-time value.',
+            'CPython eval is the reference; conformance checker is written against pedal type class names only; '
+            'value-dependent TypeErrors are not judged; literal element types stand for their base type.', '3/C19'),
 }
 
 NOT_YET = {}
